@@ -251,7 +251,8 @@ func c11Pool(w *W) {
 	var q *pubsub.Queue[fun.Worker]
 	limited := simrt.Choose(3) == 0
 	if limited {
-		q, _ = pubsub.NewQueue[fun.Worker](pubsub.QueueOptions{HardLimit: 2, SoftQuota: 2})
+		hl := 1 + simrt.Choose(3)
+		q, _ = pubsub.NewQueue[fun.Worker](pubsub.QueueOptions{HardLimit: hl, SoftQuota: 1 + simrt.Choose(hl)})
 	} else {
 		q = pubsub.NewUnlimitedQueue[fun.Worker]()
 	}
@@ -370,6 +371,9 @@ func c11Cleanup(w *W) {
 	h := &Hist{}
 	q := pubsub.NewUnlimitedQueue[fun.Worker]()
 	timeout := time.Duration(0)
+	if simrt.Choose(2) == 1 {
+		timeout = time.Duration(10+simrt.Choose(40)) * time.Millisecond // on the fake clock
+	}
 	s := srv.Cleanup(q, timeout)
 	pctx, pcancel := context.WithCancel(w.Ctx)
 	defer pcancel()
@@ -383,11 +387,17 @@ func c11Cleanup(w *W) {
 		j.err = fmt.Errorf("cleanup-%d-failure", i)
 		jobs = append(jobs, j)
 		delay := simrt.Choose(50)
+		blocks := timeout > 0 && simrt.Choose(3) == 0 // runs until the cleanup timeout expires
 		simrt.Spawn(fmt.Sprintf("register%d", i), func() {
 			simrt.WaitStep(simrt.Stamp() + delay)
-			err := q.Add(func(context.Context) error {
+			err := q.Add(func(ctx context.Context) error {
 				j.runs++
 				stall()
+				if blocks {
+					t := simrt.Pre("harness:cleanup-wait")
+					<-ctx.Done()
+					simrt.Post(t)
+				}
 				switch j.outcome {
 				case poError:
 					return j.err
@@ -437,7 +447,7 @@ func c11Cleanup(w *W) {
 		waited = true
 	})
 	simrt.Quiesce()
-	w.Config("Cleanup jobs=%d mode=%d race=%v", nJobs, mode, race)
+	w.Config("Cleanup jobs=%d mode=%d race=%v timeout=%v", nJobs, mode, race, timeout)
 	w.State(fmt.Sprintf("Cleanup m=%d r=%v", mode, race))
 	for _, j := range jobs {
 		w.hist = append(w.hist, fmt.Sprintf("cleanup%d %s accepted=%v@%d runs=%d", j.id, poNames[j.outcome], j.accepted, j.addedAt, j.runs))
